@@ -26,6 +26,25 @@ def run(ctx, pid):
         finally:
             P.Prims.register_defaults = orig
         n += len(obs)
+    from ..contracts import parts as PT
+
+    orig = P.Prims.register_defaults
+
+    def reg2(self, orig=orig):
+        orig(self)
+        PT.register_models(self)
+
+    P.Prims.register_defaults = reg2
+    try:
+        for c in PT.all_parts():
+            c.prefix = pid + c.prefix[3:]
+            ex, obs = add_to_ctx(ctx, c, {})
+            n += len(obs)
+    finally:
+        P.Prims.register_defaults = orig
+    from ..pyvc import conformance
+
+    conformance.add_to_ctx(ctx, ["partition_all"])
     ctx.assume("math.ceil(math.log(n, k)) is the least d with k**d >= n, and k**e >= n for every e >= d (mathematical reals; float rounding of math.log trusted for realistic block counts)")
     return (f"_tree_reduce (1 and 2 reduced axes; split_every int / None / dict): {n} obligations: enough levels for one block per reduced axis (loop invariant blocks <= fan_in**(levels left), "
-            "lemma CEIL_DIV_LE), levels chained by name, aggregate and block_index only at the last level; partial_reduce enters as an assumed contract = the bounded tree-builder contract.")
+            "lemma CEIL_DIV_LE), levels chained by name, aggregate and block_index only at the last level; get_parts: the blocks of a reduced axis are partitioned by toolz.partition_all with that axis' fan-in over their natural order, one unit chunk announced per part; the graph-writing loop of partial_reduce enters as an assumed contract = the bounded tree-builder contract.")
